@@ -62,7 +62,7 @@ def gen(rng, tier, prop):
     for _ in range(ncyc):
         times.append(t)
         t += rng.choice([1, 1, 2])
-    end = t + 1
+    end = t + 1 if rng.random() < 0.93 else times[-1]         # sometimes the window cuts the last cycle off
     case = [[1, start, end], [2, explicit]]
     cyc_p = 0.04 if rng.random() < 0.3 else 0.0           # chance that a link ignores the order (may close a cycle)
     two = rng.random() < 0.5                              # use the second link dictionary
@@ -272,7 +272,7 @@ def oracle(prop, case, out):
     last_read = {}                     # key -> {w: (target, valid, value)} of its latest comb evaluation
     bycycle = {c["t"]: c for c in cyc}
     err_t = cyc[-1]["t"] if (cyc and err and err[0] == 19) else None
-    times = sorted(t for t in set(h["ops"]) | set(bycycle) if h["start"] <= t <= h["end"])
+    times = sorted(t for t in set(h["ops"]) | set(bycycle) if h["start"] <= t < h["end"])      # the engine stops before end_time
     cyclic_at = None
     prev_edges = {}
     for t in times:
